@@ -415,8 +415,9 @@ def selector_rules(chk, F, cfg, r_scan='R01.1', r_pure='R01.2', r_ord='R04.5', r
         tables.check_table(chk, r_ord, fn, rows, oracle, config=cfg)
         for p in ord_paths:
             bumps = list(p.calls(r'SharedState::bump_ordered_call_index$|Atomic\w*::fetch_add$'))
-            chk.ob(r_bump, 'every ordered call consumes exactly one global slot, before the lookup', len(bumps) == 1 and bumps[0].ndec <= 1, config=cfg, fn=fn,
-                   site='slot-bump', what='slot bump count/position', found={'bumps': len(bumps), 'after_decisions': bumps[0].ndec if bumps else None}, expected='one bump right after the mode switch')
+            if r_bump:
+                chk.ob(r_bump, 'every ordered call consumes exactly one global slot, before the lookup', len(bumps) == 1 and bumps[0].ndec <= 1, config=cfg, fn=fn,
+                       site='slot-bump', what='slot bump count/position', found={'bumps': len(bumps), 'after_decisions': bumps[0].ndec if bumps else None}, expected='one bump right after the mode switch')
             ms = list(p.calls(r'core::ops::Fn::call$'))
             finds = list(p.calls(r'FnMocker::find_call_pattern_for_call_order$'))
             if finds:
@@ -436,18 +437,19 @@ def selector_rules(chk, F, cfg, r_scan='R01.1', r_pure='R01.2', r_ord='R04.5', r
                 v = strip(strip(strip(p.outcome[1])[4][0][1])[4][0][1])
                 ok = mentions(v, lambda x: is_call(x, r'FnMocker::find_call_pattern_for_call_order$')) and not mentions(v, lambda x: is_call(x, r'::iter$'))
                 chk.ob(r_ord, 'the pattern returned is the slot owner', ok, config=cfg, fn=fn, site='result', what='returned pattern provenance', found=show(v)[:200])
-        for p in any_paths:
+        for p in (any_paths if r_bump else []):
             bumps = list(p.calls(r'SharedState::bump_ordered_call_index$|Atomic\w*::fetch_add$'))
             chk.ob(r_bump, 'unordered calls never consume a global slot', not bumps, config=cfg, fn=fn, site='slot-bump-unordered', what='slot consumed by unordered call',
                    found=[e.data[1] for e in bumps], expected=[])
-        bump = F.fn('state::SharedState::bump_ordered_call_index', optional=True)
+        bump = F.fn('state::SharedState::bump_ordered_call_index', optional=True) if r_bump else None
         if bump is not None:
             callers = [(f.defp, bb) for f, bb, t in F.callers_of(bump.defp)]
             chk.ob(r_bump, 'the slot counter is bumped from exactly one site (ordered arm of the selector)', len(callers) == 1 and callers[0][0].endswith('::match_call_pattern'),
                    config=cfg, fn=bump, site='callers', what='callers of slot bump', found=callers)
-        acc = L.field_accesses(F, 'state::SharedState', 'next_ordered_call_index')
+        acc = L.field_accesses(F, 'state::SharedState', 'next_ordered_call_index') if r_bump else []
         users = sorted(set(b.defp for b, _, _, _ in acc))
-        chk.ob(r_bump, 'next_ordered_call_index is only touched by construction and the bump', len(users) == 2 and 'state::SharedState::new' in users, config=cfg,
+        if r_bump:
+            chk.ob(r_bump, 'next_ordered_call_index is only touched by construction and the bump', len(users) == 2 and 'state::SharedState::new' in users, config=cfg,
                site='field:next_ordered_call_index', what='users of the slot counter', found=users)
     return fn, paths
 
